@@ -41,13 +41,15 @@ ASSUME = ['pickle protocol 0 writes floats through repr(); Python itself does no
           'slices and +S of sparse matrices are checked for independence and numerical value only (their triplet '
           'structure belongs to C16)',
           'ASan flavour observes only accesses made by instrumented cvxopt code or through libc interceptors '
-          '(memcpy in memoryview.tobytes)']
+          '(memcpy in memoryview.tobytes); ASan reports one error per code location and worker process '
+          '(suppress_equal_pcs), so the asan flavour shows a kind of memory error at least once per shard, not per case; '
+          'the plain-build oracles (address, byte and aliasing comparisons) do not depend on it']
 BOUNDS = {'quick': 'dense {0..3}x{0..3} x i,d,z, one palette rotation; sparse all 3^(mn) patterns for shapes up to '
                    '2x3 (asan: up to 2x2 and 1x3) plus 0x0, 0x2, 2x0, typecodes d,z; array typecodes x lengths 0..4; '
                    'memoryview casts of 20 formats, 1-D 0..4, 2-D up to 3x3, 3-D; numpy 22 dtypes x 14 layouts x '
                    'shapes {0..3}^2 x tc argument; hist depth 3 from 3 initial typecodes',
           'thorough': 'as quick with two palette rotations, sparse shapes additionally 3x2 and 3x3 (19683 patterns '
-                      'each typecode); hist depth 4'}
+                      'each typecode; asan: up to 2x3 and 3x2, one rotation); hist depth 4'}
 
 MUST_FORMATS = ('i', 'l', 'd', 'Zd')
 TMPDIR = os.path.join(os.path.dirname(os.path.dirname(os.path.abspath(__file__))), '.cache')
@@ -72,7 +74,9 @@ def _sparse_shapes(tier, flavour):
     if not (tier == 'quick' and flavour == 'asan'):
         sh.append((2, 3))
     if tier == 'thorough':
-        sh += [(3, 2), (3, 3)]
+        sh.append((3, 2))
+        if flavour != 'asan':
+            sh.append((3, 3))
     return sh
 
 
@@ -87,7 +91,7 @@ def cases(tier, seed, flavour):
     for tc1 in 'idz':
         for tc2 in 'idz':
             yield {'part': 'file', 'tc1': tc1, 'tc2': tc2, 'seed': seed}
-    for s in seeds:
+    for s in (seeds if flavour != 'asan' else seeds[:1]):
         for tc in 'dz':
             for (m, n) in _sparse_shapes(tier, flavour):
                 tot = 3 ** (m * n)
@@ -368,7 +372,9 @@ def _run_dense(case, c):
            ('x[:,:]', lambda X: X[:, :], (m, n)), ('x[:]', lambda X: X[:], (N, 1)),
            ('x[0:m,0:n]', lambda X: X[0:m, 0:n], (m, n)), ('x[::1,::1]', lambda X: X[::1, ::1], (m, n)),
            ('copy', copy.copy, (m, n)), ('deepcopy', copy.deepcopy, (m, n)),
-           ('pickle2', lambda X: pickle.loads(pickle.dumps(X, 2)), (m, n))]
+           ('pickle2', lambda X: pickle.loads(pickle.dumps(X, 2)), (m, n)),
+           ('matrix(memoryview(x))', lambda X: matrix(memoryview(X)), (m, n)),
+           ('matrix(numpy.asarray(x))', lambda X: matrix(numpy.asarray(X)), (m, n))]
     for name, fn, size in cps:
         A = fresh()
         B = fn(A)
@@ -705,6 +711,7 @@ def _run_sparse(case, c):
                 c.ev(nt)
                 if tuple(U.size) != (m, n) or U.typecode != tc or not _num_eq(list(matrix(U)), dense_vals):
                     c.bad('C20:independent:%s:%s:value-differs' % (name, T), '%s differs numerically from S' % name, sub)
+        cps = [t for t in cps if tuple(t[1].size) == (m, n)]      # a wrong size has been reported above
         if m * n:
             imgs = [simg(U) for _, U, _ in cps]
             w = _newvals(tc)[0]
